@@ -4,6 +4,7 @@ from ..core import AnalysisError, walk_local, calls_in, call_name, dotted, src, 
 from ..lib import (FuncView, pm, method_calls, one, at_least, stores_to_self_attr, const_str, path_text)
 from .. import norm, schema
 from .common import tiling, linear
+from .c13 import c13f
 
 MSGS = 'btpu/messages.py'
 BAGENT = 'btpu/agent.py'
@@ -26,6 +27,7 @@ def check(chk, thorough=False):
     chk.run('C20.c', 'R-GUARD+R-LINEAR', 'segments tile from 0 by step = mtu - len(head with length hint) - transfer header size; only the last is TransferEnd; indices count from 0 by 1; step > 0 guaranteed', lambda ob: c20c(tree, ob), floor=5)
     chk.run('C20.d', 'R-ORDER', 'a transfer is queued only when the received indices equal [0,end]; data is concatenated in index order; repeats are ignored; keyed by (channel, transfer number)', lambda ob: c20d(tree, ob), floor=5)
     chk.run('C20.f', 'R-FLOW', 'a queued bundle is measured at its end and sent from its start; received items get local ids; the channel key names every field of the channel once', lambda ob: c20f(tree, ob), floor=4)
+    chk.run('C20.g', 'R-PAIR', 'a received bundle is queued and then announced under one id, taken from a receive counter that only increments (never reused while an earlier bundle may still be queued)', lambda ob: c13f(tree, ob, BAGENT), floor=3)
     chk.run('C20.e', 'R-TRUTH', 'the end index is tested with "is not None": zero is a legitimate end index', lambda ob: c20e(tree, ob), floor=1)
 
 
@@ -300,6 +302,35 @@ def c20f(tree, ob):
     from .c13 import c13g
     c13g(tree, ob, BAGENT)
     channel_key(tree, ob, BAGENT, 'EthernetChannel')
+    _frame_as_arrived(tree, ob)
+
+
+def _frame_as_arrived(tree, ob):
+    ''' what is decoded is the frame payload as it arrived: the message set carries its own lengths, so nothing needs to be
+    trimmed first -- and a trim (zero fill stripped from the end) also takes the zero octets a bundle or segment ends with '''
+    fs = FuncView(tree, BAGENT, 'Agent._sock_recvfrom')
+    c = one(method_calls(fs.func, '_recv_msg', 'self'), '_recv_msg call in _sock_recvfrom', ob)
+    ob.require(len(c.args) >= 2, '_recv_msg(sock, data, conv)')
+    val = fs.value_at(c.args[1], c, depth=4, keep=('frame',))
+    if src(val) not in ('frame.payload.load', 'bytes(frame.payload)'):
+        ob.violate(BAGENT, fs.qual, src(c)[:70] + '  with data = ' + src(val)[:50], 'the message data handed on is not the payload of the received frame as it arrived: octets that belong to a '
+                   'bundle or segment (e.g. trailing zero octets) are lost', c)
+    else:
+        fr = fs.value_at(ast.parse('frame', mode='eval').body, c, depth=3)
+        recv = pm('Ether($d)', fr)
+        if recv is None or pm('sock.recvfrom($n)', fs.value_at(recv['d'], c, depth=3)) is None and src(fs.value_at(recv['d'], c, depth=3)) != 'data':
+            ob.violate(BAGENT, fs.qual, 'frame = ' + src(fr)[:60], 'the frame is not decoded from the octets received', c)
+        else:
+            ob.site(BAGENT, c, 'the frame payload is decoded as it arrived')
+    fr = FuncView(tree, BAGENT, QR)
+    dparam = fr.func.args.args[2].arg
+    rebinds = [n for n in walk_local(fr.func) if isinstance(n, ast.Name) and n.id == dparam and isinstance(n.ctx, ast.Store)]
+    decs = [x for x in calls_in(fr.func) if call_name(x) == 'MessageSet']
+    d = one(decs, 'MessageSet(data) in _recv_msg', ob)
+    if rebinds or [src(a) for a in d.args] != [dparam]:
+        ob.violate(BAGENT, fr.qual, src(d), 'the message set is not decoded from the data as it arrived', d)
+    else:
+        ob.site(BAGENT, d, 'message set decoded from the data as it arrived')
 
 
 def c20e(tree, ob):
